@@ -1324,6 +1324,8 @@ func (e *Exec) deliverOnR0(p *pendingTx, blk *Block, rec *BlockRec) {
 			e.Stats.Inc("signbytes.faithful")
 		case strings.HasPrefix(v, "undecodable"):
 			e.Stats.Inc("signbytes.undecodable." + sdk.MsgTypeURL(m))
+		case strings.HasPrefix(v, "empty-controller"):
+			e.viol("C14", "signbytes.empty_controller_dropped", "signbytes-faithful:did-document:controller-present-empty", "%s (message %s)", v, msgJSON(e.Env, m))
 		default:
 			e.viol("C14", "signbytes.not_faithful", "signbytes-faithful:"+sdk.MsgTypeURL(m), "%s (message %s)", v, msgJSON(e.Env, m))
 		}
